@@ -61,11 +61,12 @@ class PyObj:
 
 class PyList:
     """list/deque of concrete length (items may be symbolic)."""
-    __slots__ = ('items', 'cls')
+    __slots__ = ('items', 'cls', 'is_deque')
 
     def __init__(self, items=None, cls=None):
         self.items = list(items) if items is not None else []
         self.cls = cls      # ClassObj when an interpreted subclass of list (SortedList)
+        self.is_deque = False
 
     def __repr__(self):
         return 'PyList%r' % (self.items,)
@@ -273,6 +274,7 @@ class Opaque:
         self.methods = methods or {}
         self.attrs = attrs or {}
         self.classes = classes      # ClassObj / BuiltinClass it is an instance of
+        self.native = None          # {'kind': ...}: how replays rebuild this stub natively
 
     def __repr__(self):
         return '<opaque %s>' % self.name
